@@ -41,6 +41,25 @@ func RefRequest(d *kit.DAG, local, remote func(int) bool) []Load {
 	return out
 }
 
+// remoteAvail reports whether the responder can supply the block loaded at
+// path: it holds it and every block above it on that path.
+func remoteAvail(d *kit.DAG, remote []bool, path string) bool {
+	ok := false
+	var visit func(i int, p string, reach bool)
+	visit = func(i int, p string, reach bool) {
+		avail := reach && remote[i]
+		if p == path {
+			ok = avail
+			return
+		}
+		for j, k := range d.Kids[i] {
+			visit(k, d.LinkPath(p, i, j), avail)
+		}
+	}
+	visit(0, "", true)
+	return ok
+}
+
 func blockLoads(rq *Req) []Load {
 	var out []Load
 	for _, d := range rq.Progress {
@@ -56,7 +75,10 @@ func blockLoads(rq *Req) []Load {
 // the two stores.
 func VerifReq_Cooperative() {
 	verifrt.SetNativeQuiesceMs(200)
-	n := 1 + verifrt.Choose("blocks", verifrt.Param("BLOCKS", 3))
+	n := verifrt.Param("BLOCKS", 3)
+	if verifrt.Param("EXACT", 0) == 0 {
+		n = 1 + verifrt.Choose("blocks", n)
+	}
 	dag := kit.ChooseDAG(n, verifrt.Param("NEST", 1), verifrt.Param("SHARED", 1) == 1, verifrt.Choose)
 	local := make([]bool, n)
 	remote := make([]bool, n)
@@ -95,6 +117,22 @@ func VerifReq_Cooperative() {
 			return true
 		}
 		allLocal = visit(0)
+	}
+	// region of the known finding C02-F2: among the blocks the requestor loads
+	// locally before its first miss there is one the responder cannot supply,
+	// so the two sides count "the first N blocks" differently
+	prefixDiverges := false
+	for i, l := range ref {
+		if int64(i) >= localPrefix {
+			break
+		}
+		if !l.Resolved {
+			break
+		}
+		// responder-side availability of this load
+		if !remoteAvail(dag, remote, l.Path) {
+			prefixDiverges = true
+		}
 	}
 	news := e.RequestsTo(pA, rq.ID, graphsync.RequestTypeNew)
 	desc := ""
@@ -180,27 +218,27 @@ func VerifReq_Cooperative() {
 			wantMissing = append(wantMissing, l)
 		}
 	}
-	verifrt.AssertKF(len(got) == len(wantLoads), "C02 number of blocks delivered differs from the blocks either peer can supply", "C02-F1", false)
+	verifrt.AssertKF(len(got) == len(wantLoads), "C02 number of blocks delivered differs from the blocks either peer can supply", "C02-F2", prefixDiverges)
 	for i := range wantLoads {
 		if i < len(got) {
-			verifrt.AssertKF(got[i].Link == wantLoads[i].Link && got[i].Path == wantLoads[i].Path, "C02 blocks delivered out of traversal order or at the wrong path", "C02-F1", false)
+			verifrt.AssertKF(got[i].Link == wantLoads[i].Link && got[i].Path == wantLoads[i].Path, "C02 blocks delivered out of traversal order or at the wrong path", "C02-F2", prefixDiverges)
 		}
 	}
 	nMissingErrs := 0
 	for _, err := range rq.Errors {
 		if me, ok := err.(graphsync.RemoteMissingBlockErr); ok {
 			if nMissingErrs < len(wantMissing) {
-				verifrt.AssertKF(kit.LinkIndex(me.Link) == wantMissing[nMissingErrs].Link, "C02 missing-block error reported for the wrong link", "C02-F1", false)
+				verifrt.AssertKF(kit.LinkIndex(me.Link) == wantMissing[nMissingErrs].Link, "C02 missing-block error reported for the wrong link", "C02-F2", prefixDiverges)
 			}
 			nMissingErrs++
 		} else {
-			verifrt.AssertKF(false, "C02 unexpected error on a cooperative exchange: "+err.Error(), "C02-F1", false)
+			verifrt.AssertKF(false, "C02 unexpected error on a cooperative exchange: "+err.Error(), "C02-F2", prefixDiverges)
 		}
 	}
-	verifrt.AssertKF(nMissingErrs == len(wantMissing), "C02 missing-block errors do not match exactly the links neither side can supply", "C02-F1", false)
+	verifrt.AssertKF(nMissingErrs == len(wantMissing), "C02 missing-block errors do not match exactly the links neither side can supply", "C02-F2", prefixDiverges)
 	for _, l := range ref {
 		if l.Remote {
-			verifrt.AssertKF(l.Link < len(e.Store.Has) && e.Store.Has[l.Link], "C02 a block obtained from the responder was not stored locally", "C02-F1", false)
+			verifrt.AssertKF(l.Link < len(e.Store.Has) && e.Store.Has[l.Link], "C02 a block obtained from the responder was not stored locally", "C02-F2", prefixDiverges)
 			verifrt.Cover("remote-block-stored")
 		}
 	}
